@@ -450,13 +450,16 @@ class Forest(object):
                         if child_cls == 'Segment' and nm in T.lib(parent.version).GROUPS:
                             continue
                         new.append(C(nm, version=parent.version, validation_level=parent.validation_level))
-                    if op.get('bad'):
+                    if op.get('bad') == 3:
+                        # an item that is no element at all: text, nothing, a number
+                        new.append(['a^b', None, 7, 'PID|1'][op['k'] % 4])
+                    elif op.get('bad'):
                         other = self.vocab(child_cls, parent.version)
                         lvl = parent.validation_level if op['bad'] == 1 else (3 - parent.validation_level)
                         new.append(C(other[op['k'] % len(other)], version=parent.version, validation_level=lvl))
                 except Exception:
                     return Applied('skipped')
-                self.all.extend(new)
+                self.all.extend(x for x in new if hasattr(x, 'children'))
                 tag = ''
                 if op.get('own') and len(parent.children.list):
                     # one of the element's own children is part of the new list
@@ -475,7 +478,7 @@ class Forest(object):
                             not self._is_ancestor(other, parent) and other not in self.msgs:
                         new.insert(0, other)
                         tag += ':taken'
-                a = Applied('set_children' + tag + (':bad' if op.get('bad') else ''), parent, [x for x in new if x.parent is not parent])
+                a = Applied('set_children' + tag + ((':not-an-element' if op.get('bad') == 3 else ':bad') if op.get('bad') else ''), parent, [x for x in new if hasattr(x, 'parent') and x.parent is not parent])
                 try:
                     if op.get('alias') and tag == '' and not op.get('bad'):
                         # the child list object of another element handed over as it is
@@ -637,6 +640,26 @@ def check_tree(e, owner, path='root', depth=0):
         for t in v:
             if t.traversal_parent is not e or any(t is c for c in L):
                 out.append(('C10-traversal-index-inconsistent', '%s: %r' % (path, t)))
+    # the result of a lookup by name: its length, its iteration and its positional lookup agree (one position past the end
+    # is an IndexError, also for a name that has only been navigated through)
+    for k in list(by) + [k for k in ch.traversal_indexes if k not in by]:
+        if k is None:
+            continue
+        try:
+            p = ch.get(k)
+            if p is None:
+                continue
+            n = len(p)
+            real = len(by.get(k, ()))
+            if n != real or len(list(p)) != n:
+                out.append(('C10-lookup-by-name-length-disagrees', '%s: %s: len %d, iteration %d, listed %d' % (path, k, n, len(list(p)), real)))
+            try:
+                extra = p[n]
+                out.append(('C10-lookup-by-name-indexes-past-its-length', '%s: %s: len %d but [%d] gives %r' % (path, k, n, n, extra)))
+            except IndexError:
+                pass
+        except Exception as ex:
+            out.append(('C10-lookup-raises:%s' % type(ex).__name__, '%s.%s: %s' % (path, k, ex)))
     for i, c in enumerate(L):
         out.extend(check_tree(c, owner, '%s/%s[%d]' % (path, c.name, i), depth + 1))
     return out
@@ -703,9 +726,9 @@ def op_strategy():
         st.fixed_dictionaries({'op': st.sampled_from(['del_name', 'del_idx']), 'parent': SHALLOW, 'k': st.integers(0, 30), 'i': st.integers(-1, 2)}),
         st.fixed_dictionaries({'op': st.sampled_from(['remove', 'pop', 'del_child']), 'parent': SHALLOW, 'i': st.integers(-1, 4)}),
         st.fixed_dictionaries({'op': st.just('set_children'), 'parent': SHALLOW, 'n': st.integers(0, 3), 'k': st.integers(0, 20),
-                               'bad': st.sampled_from([0, 0, 1, 2])}),
+                               'bad': st.sampled_from([0, 0, 1, 2, 3])}),
         st.fixed_dictionaries({'op': st.just('set_children'), 'parent': SHALLOW, 'n': st.integers(0, 2), 'k': st.integers(0, 20),
-                               'bad': st.sampled_from([0, 1, 1, 2]), 'own': st.integers(0, 3), 'steal': st.one_of(st.none(), REF),
+                               'bad': st.sampled_from([0, 1, 1, 2, 3]), 'own': st.integers(0, 3), 'steal': st.one_of(st.none(), REF),
                                'alias': st.one_of(st.none(), st.none(), SHALLOW)}),
         st.fixed_dictionaries({'op': st.just('value'), 'target': REF, 'k': k9}),
         st.fixed_dictionaries({'op': st.just('datatype'), 'target': REF, 'k': k9}),
